@@ -274,7 +274,9 @@ impl HistMonitor for C13 {
     fn nontrivial(&self, _c: &HistStats) -> bool {
         self.qualified >= 1
     }
-    fn owns_panic(&self, op: &Op) -> bool {
-        matches!(op, Op::Slice(_))
+    fn owns_panic(&self, _op: &Op) -> bool {
+        // slices taken by the monitor itself are judged (with the as-if rebuild on a panic);
+        // a slice op inside the generated history is only part of the workload
+        false
     }
 }
